@@ -321,8 +321,10 @@ class Ctx:
         cov["known_findings_seen"] = sorted(self.known_seen)
         ev = dict(property_id=self.pid, tier=self.tier, seed=self.seed, level=self.level, coverage=cov,
                   assumptions=self.assumptions, wall_s=round(wall, 1), violations=len(self.violations))
-        os.makedirs(os.path.join(VERIF, "evidence"), exist_ok=True)
-        with open(os.path.join(VERIF, "evidence", self.pid + ".json"), "w") as fh:
+        # evidence describes runs against /repo itself; a self-test against a scratch worktree (VERIF_REPO) must not overwrite it
+        evdir = os.path.join(VERIF, "evidence") if REPO == "/repo" else os.path.join(VERIF, "out", "evidence-selftest")
+        os.makedirs(evdir, exist_ok=True)
+        with open(os.path.join(evdir, self.pid + ".json"), "w") as fh:
             json.dump(ev, fh, indent=1, default=str)
         for k in sorted(self.known_seen):
             print("KNOWN-FINDING: property=%s key=%s %s" % (self.pid, k, self.known.get(k, "")), flush=True)
